@@ -1150,6 +1150,19 @@ def new_keyword_bindings(cx, fn, in_scope) -> list[dict]:
     return out or [{}]
 
 
+def construct_from_full_dump(c) -> bool:
+    """``Record.model_construct([_fields_set=..,] **r.model_dump())``: every value of a record that HAS been validated,
+    in containers of their own (model_dump copies lists) - a copy, with nothing for the skipped validators to find."""
+    if not (op(c) == "call" and len(c[2]) <= 1):
+        return False
+    splats = [v for k, v in c[3] if k is None]
+    named = [k for k, _ in c[3] if k is not None and k != "_fields_set"]
+    if len(splats) != 1 or named:
+        return False
+    d = splats[0]
+    return op(d) == "call" and callee_name(d) == "model_dump" and not any(k in ("exclude_unset", "exclude_defaults", "exclude", "include", "exclude_none") for k, _ in d[3]) and not d[2]
+
+
 def construct_of_plain_strings(c) -> bool:
     """``Record.model_construct(prefix=str(a), uri_prefix=str(b))``: exactly the two canonical fields, both made plain
     strings in the call, no synonym list and no splat.  The validators that ``model_construct`` skips are vacuous for
@@ -2753,7 +2766,8 @@ def no_fields_set_dependence(cx: Cx, ob: Ob) -> None:
                     # (**self.model_dump() / **dict(self)): every value is copied, only pydantic's own
                     # "was set explicitly" marks follow the original
                     for k in subterms(t):
-                        if op(k) == "call" and callee_name(k) == "model_construct" and k[2] and any(y == c for y in subterms(k[2][0])) and not any(y == c for a_ in k[2][1:] for y in subterms(a_)):
+                        fs_args = ([k[2][0]] if op(k) == "call" and k[2] else []) + ([v_ for kk_, v_ in k[3] if kk_ == "_fields_set"] if op(k) == "call" else [])
+                        if op(k) == "call" and callee_name(k) == "model_construct" and fs_args and any(y == c for fa in fs_args for y in subterms(fa)) and not any(y == c for a_ in k[2][1:] for y in subterms(a_)) and not any(y == c for kk_, v_ in k[3] if kk_ not in (None, "_fields_set") for y in subterms(v_)):
                             splat = [v for kk, v in k[3] if kk is None]
                             if splat and all(op(v) == "call" and (callee_name(v) in ("model_dump", "dict") and not any(kk2 in ("exclude_unset", "exclude_defaults", "include", "exclude") for kk2, _ in v[3])) for v in splat):
                                 bad = None
